@@ -38,12 +38,5 @@ UNIT = {
                  ('set_view', 'forall|c: int| final(self).view_at(c) == if c == cid { width } else { old(self).view_at(c) }')],
      'rewrites': [{'rule': 'R4', 'find': 'debug_assert_eq!(self.get(cid), width);', 'replace': ''}]},
  },
- 'kani': {
-   'modules': [{'file': F, 'code': 'kani_widths.rs'}],
-   'harnesses': [
-     {'name': 'widths_set_get_bounded', 'fn': 'Widths::_set', 'file': F, 'props': ['C19'], 'kind': 'bounded',
-      'bound': 'up to 3 successive set() calls with codes < 6 on an empty table, then every code < 8 queried', 'tier': 'thorough', 'covers': True,
-      'contract': 'after set(c1,w1)..set(ck,wk) on new(d): get(c) == w_j for the last j with c_j == c, else d (second opinion + counterexample source for the Verus contract)'},
-   ],
- },
+ # (a Kani second opinion on the real _set was tried and dropped: Vec splice/extend under CBMC did not finish in 25 min)
 }
